@@ -160,10 +160,16 @@ func driverSource(dir, name string) (string, error) {
 	handlerFuncs := map[string][2]string{} // XHandlerFunc -> (request type, response type)
 	var apiFields [][2]string              // field name, type name
 	hasSpecFileHandler, hasSchemaPath := false, false
+	methodRecv := map[string][]string{}
 	for _, f := range files {
 		for _, d := range f.Decls {
 			switch d := d.(type) {
 			case *ast.FuncDecl:
+				if d.Recv != nil && len(d.Recv.List) == 1 {
+					// methods: which types have write<Op> (the component responses an operation documents)
+					rt := exprString(fset, d.Recv.List[0].Type)
+					methodRecv[d.Name.Name] = append(methodRecv[d.Name.Name], strings.TrimPrefix(rt, "*"))
+				}
 				if d.Recv != nil || d.Type.TypeParams != nil || d.Name.Name == "init" || d.Name.Name == "main" || d.Name.Name == "_" {
 					continue
 				}
@@ -260,10 +266,41 @@ func driverSource(dir, name string) (string, error) {
 							args = append(args, "verifreg.EmptyBody()")
 							continue
 						}
+						if p == "int" {
+							args = append(args, "200")
+							continue
+						}
 						args = append(args, "*new("+p+")")
 					}
 					ctor = f.name + "(" + strings.Join(args, ", ") + ")"
 					break
+				}
+			}
+			if ctor == "" {
+				// a component response documented for the operation: its type has write<Op>, its constructor returns that type
+				recvs := append([]string{}, methodRecv["write"+opn]...)
+				sort.Strings(recvs)
+				for _, rt := range recvs {
+					for _, f := range funcs {
+						if f.name == "New"+rt && f.result == rt {
+							var args []string
+							for _, p := range f.params {
+								if p == "io.ReadCloser" {
+									args = append(args, "verifreg.EmptyBody()")
+									continue
+								}
+								if p == "int" {
+									args = append(args, "200") // (the code of a default response: 0 is not a status the handler may return)
+									continue
+								}
+								args = append(args, "*new("+p+")")
+							}
+							ctor = f.name + "(" + strings.Join(args, ", ") + ")"
+						}
+					}
+					if ctor != "" {
+						break
+					}
 				}
 			}
 			if ctor == "" {
